@@ -418,7 +418,7 @@ struct PkGen {
     op("init").set("halfrate", g.chance(0.1) ? 1 : 0);
     if (g.chance(0.1)) op("init");
     int n = (int)g.range(0, thorough ? 300 : 80); size_t j = 0; double pf = g.chance(0.3) ? 0.0 : 0.05 + g.unit() * 0.5;
-    int64_t go = 0; bool regime = g.chance(0.2); if (regime) { static const int64_t offs[] = {2147483648LL, 4294967296LL, 4294967296LL + 12345, 1099511627776LL, 4611686018427387904LL, INT64_MAX - 50000}; go = offs[g.below(6)]; pf *= 0.3; }
+    int64_t go = 0; bool regime = g.chance(0.28); if (regime) { static const int64_t offs[] = {2147483648LL, 4294967296LL, 4294967296LL + 12345, 1099511627776LL, 4611686018427387904LL, INT64_MAX - 50000}; go = offs[g.below(6)]; pf *= 0.3; }
     double glp = regime ? 0.08 : 0.01; bool midhr = g.chance(0.25);
     for (int i = 0; i < n && P > 0; i++) {
       double v = g.unit();
@@ -438,6 +438,9 @@ struct PkGen {
       if (g.chance(0.03)) o.set("pno", (int64_t)g.below(100));
       if (g.chance(0.02)) o.set("bos", 1);
     }
+    // a shifted stream that ends on an end-of-stream packet whose position lies: the end trim's 64-bit arithmetic at its extremes
+    if (regime && P > 0 && g.chance(0.5)) { Rec &o = op("pkt"); o.setu("j", std::min<size_t>(j + 1, (size_t)P - 1)).set("drain", 1).set("eos", 1).set("go", go);
+      if (g.chance(0.5)) { static const int64_t gl[] = {INT64_MIN, INT64_MIN + 4096, -2, 0, 1, INT64_MAX}; o.set("gp", gl[g.below(6)]); } else { static const int64_t dl[] = {-1, -4096, -8192, 8192, -1000000, 1000000}; o.setu("gl", g.below(5)).set("gd", dl[g.below(6)]); } }
     if (g.chance(0.3)) op("clear").set("twice", (int64_t)g.below(2));
     return p;
   }
